@@ -141,6 +141,22 @@ def check_outcome(ctx, case, out, r, cands, ballots):
             any_tb = True
     if any_tb:
         ctx.count("tiebreak_runs")
+    # ties for elimination are always broken AND recorded (decided on the observed tallies of the previous round)
+    if rule in rules.STV_FAMILY or rule == "Alaska":
+        st = e.election_states
+        for i in range(2 if rule == "Alaska" else 1, nst):
+            elim = [c for g in st[i].eliminated for c in g]
+            prev = st[i - 1].scores
+            if len(elim) == 1 and prev and elim[0] in prev:
+                low = min(prev.values())
+                grp = frozenset(c for c, v in prev.items() if v == low)
+                if len(grp) > 1 and elim[0] in grp:
+                    ctx.count("elimination_ties_seen")
+                    if grp not in st[i].tiebreaks:
+                        ctx.fail(f"{rule}: a tie for elimination was broken without being recorded", case,
+                                 {"round": i, "tied_lowest": sorted(map(str, grp)), "eliminated": elim,
+                                  "recorded": [sorted(map(str, k)) for k in st[i].tiebreaks]})
+                        return nst, any_tb
     return nst, any_tb
 
 
